@@ -64,7 +64,19 @@ def gen_tree(rng, maxdepth=5, nmax=10, name_style=None, links=True, block=32768,
             if not cands:
                 used.discard(p)
                 continue
-            entries.append({"path": p, "kind": "link", "target": rng.pick(cands)})
+            text = rng.pick(cands)
+            if coincide:
+                # the same referent spelled less canonically: through a real sibling directory and back, a leading './',
+                # a trailing '/.' - the text is what has to survive the round trip, not a normalised form of it
+                sib = [posixpath.basename(d) for d in dirs if d and posixpath.dirname(d) == here]
+                how = rng.wpick([(6, "plain"), (2, "via"), (1, "dot"), (1, "slashdot")])
+                if how == "via" and sib:
+                    text = rng.pick(sib) + "/../" + text
+                elif how == "dot":
+                    text = "./" + text
+                elif how == "slashdot" and text.split("/")[-1] not in ("..",) and any(posixpath.normpath(posixpath.join(here, text)) == d for d in dirs):
+                    text = text + "/."
+            entries.append({"path": p, "kind": "link", "target": text})
     top = [e["path"] for e in entries if "/" not in e["path"]]
     if coincide and top and len(dirs) > 1 and rng.chance(0.3):
         # a link whose text, read from the tree root (or from the root's parent, 'src/...') instead of from the link's own
